@@ -567,7 +567,12 @@ func (ex *Exec) loadIdx(arr *Cell, idx *smt.Term, lo, hi int) Value {
 		return ex.load(ex.kid(arr, int(idx.Val)))
 	}
 	if smt.IsIteConst(idx) {
-		return ex.mapIteValue(idx, func(k *smt.Term) Value { return ex.load(ex.kid(arr, int(k.Val))) })
+		return ex.mapIteValue(idx, func(k *smt.Term) Value {
+			if k.Val >= uint64(len(arr.Kids)) {
+				return ex.zero(arr.elemType()) // leaf excluded by the preceding bounds check
+			}
+			return ex.load(ex.kid(arr, int(k.Val)))
+		})
 	}
 	if hi <= lo {
 		lo, hi = 0, len(arr.Kids)
@@ -689,7 +694,12 @@ func (ex *Exec) indexVal(fr *frame, x *ssa.Index) Value {
 			return b[idx.Val]
 		}
 		if smt.IsIteConst(idx) {
-			return ex.mapIteValue(idx, func(k *smt.Term) Value { return b[k.Val] })
+			return ex.mapIteValue(idx, func(k *smt.Term) Value {
+				if k.Val >= uint64(len(b)) {
+					return b[0]
+				}
+				return b[k.Val]
+			})
 		}
 		var res Value
 		for i := len(b) - 1; i >= 0; i-- {
@@ -712,7 +722,12 @@ func (ex *Exec) strIndex(s StrV, idx *smt.Term) *smt.Term {
 		return s.B[idx.Val]
 	}
 	if smt.IsIteConst(idx) {
-		return ex.ctx.MapIte(idx, func(k *smt.Term) *smt.Term { return s.B[k.Val] })
+		return ex.ctx.MapIte(idx, func(k *smt.Term) *smt.Term {
+			if k.Val >= uint64(len(s.B)) {
+				return ex.byteConst(0)
+			}
+			return s.B[k.Val]
+		})
 	}
 	res := s.B[len(s.B)-1]
 	for i := len(s.B) - 2; i >= 0; i-- {
